@@ -199,6 +199,15 @@ static void act (char *line)
       int len = 0;
       if (!k || k > naccepted || cfd[k] < 0 || slot_of (cip[k]) < 0)
         return;			/* not (or no longer) a connected user: nothing is sent */
+      {
+        /* harness discipline: never more than MAX_TEXT / 16 unread bytes per user when backend() polls - that is the
+         * least get_user_data() ever asks recv() for, so one read takes everything (the model has the same guard) */
+        int raw = 0;
+        for (char *p = tok[2]; *p; p++)
+          raw += (*p == '~') ? 2 : 1;
+        if (unread[k] + raw > MAX_TEXT / 16)
+          return;
+      }
       for (char *p = tok[2]; *p && len < (int) sizeof data - 2; p++)
         if (*p == '~')
           {
